@@ -21,7 +21,7 @@ HOOKS = {
     "guard": "cargo feature `verif` on altrios-core (off by default)",
     "enable": "the harness crate /verif/harness depends on /repo/rust/altrios-core by path with features=[\"verif\"]; tools/build.sh runs cargo build --offline against /repo's working tree",
     "baseline_off_cmd": "cd /repo/rust && cargo test --workspace --no-fail-fast --offline",
-    "source_commits": ["55df07d"],
+    "source_commits": ["55df07d", "6a2de98", "b16fe2d"],
     "add_only": True,
 }
 ENGINES = [
